@@ -98,6 +98,7 @@ type thread struct {
 	spinEpoch uint64
 	burn      int
 	writes    int
+	bounded   bool // the operation in progress must finish by itself (not a wait-forever call)
 	resWrite  bool
 	resOK     bool
 	resVal    uint64
@@ -165,23 +166,24 @@ type Event struct {
 }
 
 type Result struct {
-	End         int
-	Steps       int
-	Schedule    []int16
-	LogHash     uint64
-	Log         []Event
-	Unfinished  []int
-	Pending     []Kind // pending kind of each unfinished thread
-	Preemptions int    // switched away from an enabled thread that was inside an operation
-	MaxOpen     int    // max number of simultaneously open operations
-	StallsFired int
-	Ticks       int
-	FairRounds  int
-	Burns       int
-	Froze       bool
-	SimNs       int64
-	Panics      []string // "t<id>: msg\nstack"
-	KindCount   [KDone + 1]int
+	End           int
+	Steps         int
+	Schedule      []int16
+	LogHash       uint64
+	Log           []Event
+	Unfinished    []int
+	Pending       []Kind // pending kind of each unfinished thread
+	Preemptions   int    // switched away from an enabled thread that was inside an operation
+	MaxOpen       int    // max number of simultaneously open operations
+	StallsFired   int
+	Ticks         int
+	FairRounds    int
+	Burns         int
+	BoundedRounds int // retry rounds granted to self-terminating calls after the others gave up
+	Froze         bool
+	SimNs         int64
+	Panics        []string // "t<id>: msg\nstack"
+	KindCount     [KDone + 1]int
 }
 
 type Sim struct {
@@ -506,6 +508,18 @@ func OpBegin() uint64 {
 	return s.seq
 }
 
+// OpBounded marks the operation the calling thread has begun as one that must finish by itself
+// (see the stuck-spin handling of the controller).
+//
+//go:norace
+func OpBounded() {
+	s := &S
+	if !s.active || s.kill {
+		return
+	}
+	s.th[s.cur].bounded = true
+}
+
 // OpEnd returns the response stamp.
 //
 //go:norace
@@ -515,6 +529,7 @@ func OpEnd() uint64 {
 	if s.active && !s.kill {
 		th := &s.th[s.cur]
 		th.inOp = false
+		th.bounded = false
 		s.open--
 	}
 	return s.seq
@@ -979,8 +994,25 @@ func (s *Sim) loop() {
 					idleRounds = 0
 				}
 				if idleRounds >= 3 {
-					s.res.End = EndStuckSpin
-					return
+					// Nobody but spinners is left and three rounds of retries changed nothing.
+					// For a call that waits for somebody else for ever that is the end.  A call
+					// that must finish by itself (timed or non-blocking) may still be inside a
+					// bounded spin (k yields before it sleeps, helps or gives up) or be polling
+					// the clock: it keeps retrying while simulated time passes, and is given up
+					// only after thousands of fruitless rounds (or the step budget).
+					bounded := false
+					for t := 0; t < s.n; t++ {
+						th := &s.th[t]
+						if th.state == stParked && th.pend == KGosched && th.bounded && th.inOp {
+							bounded = true
+						}
+					}
+					if !bounded || idleRounds >= 4000 {
+						s.res.End = EndStuckSpin
+						return
+					}
+					s.clock += 1000000
+					s.res.BoundedRounds++
 				}
 				roundOpen = true
 				epochAtRound = s.wEpoch
